@@ -52,7 +52,7 @@ def accepts(proto: str, line: str, tls: bool, headers: dict, waptop="/wap") -> b
         parts = _http_shape(line)
         if parts is None:
             return False
-        if parts[1].startswith(waptop):
+        if parts[1] == waptop or parts[1].startswith((waptop + "/", waptop + "?")):
             return True
         acc = headers.get("accept")
         if acc is None or not re.search(r"[, ]text/vnd.wap.wml", acc):
